@@ -149,15 +149,18 @@ pub proof fn lemma_domtree_reach_rev(t: &Graph<NullVertex, NullEdge>, vs: Set<us
     lemma_path_closed(te, f, root, v);
 }
 
-/// every recorded loop contains its header and only mentions vertices
-pub open spec fn loops_ok(vs: Set<usize>, lm: Map<usize, BTreeSet<usize>>) -> bool {
-    forall|h: usize| #![trigger lm[h]] lm.contains_key(h) ==> lm[h]@.contains(h) && lm[h]@.subset_of(vs)
+/// every recorded loop contains its header and only mentions vertices reachable from head
+pub open spec fn loops_ok(es: Set<(usize, usize)>, head: usize, lm: Map<usize, BTreeSet<usize>>) -> bool {
+    forall|h: usize| #![trigger lm[h]] lm.contains_key(h) ==> lm[h]@.contains(h)
+        && (forall|x: usize| #![trigger lm[h]@.contains(x)] lm[h]@.contains(x) ==> path(es, head, x))
 }
 
-/// structural shape of a list of natural loops: headers pairwise distinct, each loop contains its
-/// header and only mentions vertices of the graph
-pub open spec fn loops_shape(vs: Set<usize>, ls: Seq<Loop>) -> bool {
-    &&& forall|i: int| 0 <= i < ls.len() ==> (#[trigger] ls[i]).nodes@.contains(ls[i].header) && ls[i].nodes@.subset_of(vs)
+/// structural shape of a list of natural loops of the flow graph rooted at head: headers pairwise
+/// distinct, each loop contains its header, and every loop node is reachable from head
+/// (vertices outside the flow graph are excluded)
+pub open spec fn loops_shape(es: Set<(usize, usize)>, head: usize, ls: Seq<Loop>) -> bool {
+    &&& forall|i: int| 0 <= i < ls.len() ==> (#[trigger] ls[i]).nodes@.contains(ls[i].header)
+    &&& forall|i: int, x: usize| #![trigger ls[i].nodes@.contains(x)] 0 <= i < ls.len() && ls[i].nodes@.contains(x) ==> path(es, head, x)
     &&& forall|i: int, j: int| 0 <= i < j < ls.len() ==> (#[trigger] ls[i]).header != (#[trigger] ls[j]).header
 }
 
@@ -783,6 +786,8 @@ where
         /*@ok*/ self.vertices@.contains_key(start_index) ==> r is Ok,
         /*@keys*/ r matches Ok(d) ==> d@.dom() == self.vertices@.dom(),
         /*@members*/ r matches Ok(d) ==> forall|v: usize, x: usize| #![trigger d@[v]@.contains(x)] d@.contains_key(v) && d@[v]@.contains(x) ==> self.vertices@.contains_key(x),
+        /*@values_reachable*/ r matches Ok(d) ==> forall|v: usize, x: usize| #![trigger d@[v]@.contains(x)] d@.contains_key(v) && d@[v]@.contains(x) ==> self.reaches(start_index, x),
+        /*@keys_reachable*/ r matches Ok(d) ==> forall|v: usize, x: usize| #![trigger d@[v]@.contains(x)] d@.contains_key(v) && d@[v]@.contains(x) ==> self.reaches(start_index, v),
 //@ loop 0
     invariant
         self.graph_wf(),
@@ -820,6 +825,7 @@ where
         seq_lists_map(it.seq(), self.vertices@),
         df@.dom() == self.vertices@.dom(),
         forall|v: usize, x: usize| #![trigger df@[v]@.contains(x)] df@.contains_key(v) && df@[v]@.contains(x) ==> self.vertices@.contains_key(x),
+        /*@frontier_in_flow_graph*/ forall|v: usize, x: usize| #![trigger df@[v]@.contains(x)] df@.contains_key(v) && df@[v]@.contains(x) ==> self.reaches(start_index, v) && self.reaches(start_index, x),
 //@ before 0 `let vertex_index: usize = *vertex.0;`
     proof {
         lemma_seq_lists_map(it.seq(), self.vertices@);
@@ -828,11 +834,13 @@ where
 //@ loop 2
     invariant
         self.graph_wf(), self.vertices@.contains_key(start_index), self.vertices@.contains_key(vertex_index), es == self.edges@.dom(), m == idoms@,
+        m.contains_key(vertex_index),
         idoms_shape(es, start_index, m, o),
         seq_lists_set_ref(it2.seq(), self.predecessors@[vertex_index]@),
         df@.dom() == self.vertices@.dom(),
         forall|v: usize, x: usize| #![trigger df@[v]@.contains(x)] df@.contains_key(v) && df@[v]@.contains(x) ==> self.vertices@.contains_key(x),
-//@ before 0 `let mut runner = *predecessor; while runner != idom`
+        /*@frontier_in_flow_graph*/ forall|v: usize, x: usize| #![trigger df@[v]@.contains(x)] df@.contains_key(v) && df@[v]@.contains(x) ==> self.reaches(start_index, v) && self.reaches(start_index, x),
+//@ after 0 `let mut runner = *predecessor;`
     proof {
         lemma_seq_lists_set_ref(it2.seq(), self.predecessors@[vertex_index]@);
         assert(self.predecessors@[vertex_index]@.contains(*predecessor));
@@ -841,25 +849,28 @@ where
 //@ loop 3
     invariant
         self.graph_wf(), self.vertices@.contains_key(start_index), self.vertices@.contains_key(vertex_index), es == self.edges@.dom(), m == idoms@,
+        m.contains_key(vertex_index),
         idoms_shape(es, start_index, m, o),
         self.vertices@.contains_key(runner),
         df@.dom() == self.vertices@.dom(),
         forall|v: usize, x: usize| #![trigger df@[v]@.contains(x)] df@.contains_key(v) && df@[v]@.contains(x) ==> self.vertices@.contains_key(x),
+        /*@frontier_in_flow_graph*/ forall|v: usize, x: usize| #![trigger df@[v]@.contains(x)] df@.contains_key(v) && df@[v]@.contains(x) ==> self.reaches(start_index, v) && self.reaches(start_index, x),
     decreases pos_of(o, runner),
 //@ before 0 `df.get_mut(&runner).unwrap().insert(vertex_index);`
     let ghost dfa = df@;
+    let ghost r0 = runner;
 //@ after 0 `df.get_mut(&runner).unwrap().insert(vertex_index);`
     proof {
-        assert forall|v: usize, x: usize| #![trigger df@[v]@.contains(x)] df@.contains_key(v) && df@[v]@.contains(x) implies self.vertices@.contains_key(x) by {
-            if v != runner {
-                assert(!vstd::std_specs::hash::contains_borrowed_key(Map::<usize, ()>::empty().insert(v, ()), &runner)) by {
-                    assert(!Map::<usize, ()>::empty().insert(v, ()).contains_key(runner));
-                }
-                assert(df@[v] == dfa[v]);
-            } else if x != vertex_index {
-                assert(dfa[runner]@.contains(x));
+        // frame of the update (true whatever r0 is): only the set of r0 changed, and only by adding vertex_index
+        assert forall|v: usize| #![trigger df@[v]] df@.contains_key(v) && v != r0 implies df@[v] == dfa[v] by {
+            assert(!vstd::std_specs::hash::contains_borrowed_key(Map::<usize, ()>::empty().insert(v, ()), &r0)) by {
+                assert(!Map::<usize, ()>::empty().insert(v, ()).contains_key(r0));
             }
         }
+        assert forall|x: usize| #![trigger df@[r0]@.contains(x)] df@[r0]@.contains(x) implies x == vertex_index || dfa[r0]@.contains(x) by { }
+        lemma_path_refl(es, start_index);
+        assert(m.contains_key(r0) ==> self.reaches(start_index, r0));
+        assert(self.reaches(start_index, vertex_index));
     }
 //@ before 0 `runner = idoms[&runner]; } } } }`
     proof {
@@ -875,7 +886,8 @@ where
         seq_lists_set_ref(it2.seq(), self.predecessors@[start_index]@),
         df@.dom() == self.vertices@.dom(),
         forall|v: usize, x: usize| #![trigger df@[v]@.contains(x)] df@.contains_key(v) && df@[v]@.contains(x) ==> self.vertices@.contains_key(x),
-//@ before 0 `let mut runner = *predecessor; loop`
+        /*@frontier_in_flow_graph*/ forall|v: usize, x: usize| #![trigger df@[v]@.contains(x)] df@.contains_key(v) && df@[v]@.contains(x) ==> self.reaches(start_index, v) && self.reaches(start_index, x),
+//@ after 1 `let mut runner = *predecessor;`
     proof {
         lemma_seq_lists_set_ref(it2.seq(), self.predecessors@[start_index]@);
         assert(self.predecessors@[start_index]@.contains(*predecessor));
@@ -888,21 +900,23 @@ where
         self.vertices@.contains_key(runner),
         df@.dom() == self.vertices@.dom(),
         forall|v: usize, x: usize| #![trigger df@[v]@.contains(x)] df@.contains_key(v) && df@[v]@.contains(x) ==> self.vertices@.contains_key(x),
+        /*@frontier_in_flow_graph*/ forall|v: usize, x: usize| #![trigger df@[v]@.contains(x)] df@.contains_key(v) && df@[v]@.contains(x) ==> self.reaches(start_index, v) && self.reaches(start_index, x),
     decreases pos_of(o, runner),
 //@ before 0 `df.get_mut(&runner).unwrap().insert(start_index);`
     let ghost dfa = df@;
+    let ghost r0 = runner;
 //@ after 0 `df.get_mut(&runner).unwrap().insert(start_index);`
     proof {
-        assert forall|v: usize, x: usize| #![trigger df@[v]@.contains(x)] df@.contains_key(v) && df@[v]@.contains(x) implies self.vertices@.contains_key(x) by {
-            if v != runner {
-                assert(!vstd::std_specs::hash::contains_borrowed_key(Map::<usize, ()>::empty().insert(v, ()), &runner)) by {
-                    assert(!Map::<usize, ()>::empty().insert(v, ()).contains_key(runner));
-                }
-                assert(df@[v] == dfa[v]);
-            } else if x != start_index {
-                assert(dfa[runner]@.contains(x));
+        // frame of the update (true whatever r0 is): only the set of r0 changed, and only by adding start_index
+        assert forall|v: usize| #![trigger df@[v]] df@.contains_key(v) && v != r0 implies df@[v] == dfa[v] by {
+            assert(!vstd::std_specs::hash::contains_borrowed_key(Map::<usize, ()>::empty().insert(v, ()), &r0)) by {
+                assert(!Map::<usize, ()>::empty().insert(v, ()).contains_key(r0));
             }
         }
+        assert forall|x: usize| #![trigger df@[r0]@.contains(x)] df@[r0]@.contains(x) implies x == start_index || dfa[r0]@.contains(x) by { }
+        lemma_path_refl(es, start_index);
+        assert(m.contains_key(r0) ==> self.reaches(start_index, r0));
+        assert(self.reaches(start_index, start_index));
     }
 //@ before 1 `runner = idoms[&runner];`
     proof {
@@ -918,7 +932,7 @@ where
 //@ rewrite 1 `for (tail, header) in self.compute_back_edges(head)? {` => `let back__ = self.compute_back_edges(head)?; for e__ in it: back__.iter() { let (tail, header) = *e__;` ## R-iter-copy: by-value iteration over a temporary HashSet of Copy pairs = binding it to a local and iterating by reference, copying each pair (Verus has no model of hash_set::IntoIter)
 //@ rewrite 1 `let nodes = loops.entry(header).or_default();` => `if !loops.contains_key(&header) { loops.insert(header, BTreeSet::new()); } let nodes = loops.get_mut(&header).unwrap();` ## R-entry-or-default: `map.entry(k).or_default()` is by definition: insert `Default::default()` (= `BTreeSet::new()`) if k is absent, then return a mutable reference to the value at k
 //@ rewrite 1 `for &predecessor in` => `for predecessor__r in it2:` ## R-ref-pattern: `for &x in ITER { BODY }` is `for x__r in ITER { let x = *x__r; BODY }` for Copy items (part 1 of 2)
-//@ rewrite 1 `{ if nodes.insert(predecessor)` => `{ let predecessor = *predecessor__r; if nodes.insert(predecessor)` ## R-ref-pattern: part 2 of 2
+//@ rewrite 1 `{ if reachable.contains(&predecessor)` => `{ let predecessor = *predecessor__r; if reachable.contains(&predecessor)` ## R-ref-pattern: part 2 of 2
 //@ rewrite 1 `Ok(loops .iter() .map(|(&header, nodes)|` => `Ok({ let mut out__: Vec<Loop> = Vec::new(); for kv__ in it: loops.iter() { let (header, nodes) = (*kv__.0, kv__.1); out__.push(` ## R-map-collect: `ITER.map(|(&k, v)| F).collect::<Vec<_>>()` is by definition the loop pushing F for every entry (part 1 of 2; F stays the original tokens)
 //@ rewrite 1 `) .collect())` => `); } out__ })` ## R-map-collect: part 2 of 2
 //@ spec
@@ -926,13 +940,14 @@ where
     ensures
         /*@missing*/ !self.vertices@.contains_key(head) ==> (r matches Err(e) && e == Error::GraphVertexNotFound(head)),
         /*@ok*/ self.vertices@.contains_key(head) ==> r is Ok,
-        /*@shape*/ r matches Ok(ls) ==> loops_shape(self.vertices@.dom(), ls@),
+        /*@shape*/ r matches Ok(ls) ==> loops_shape(self.edges@.dom(), head, ls@),
 //@ loop 0
     invariant
         self.graph_wf(), self.vertices@.contains_key(head),
+        forall|v: usize| #![trigger reachable@.contains(v)] reachable@.contains(v) ==> self.reaches(head, v),
         seq_lists_set_ref(it.seq(), back__@),
-        forall|e: (usize, usize)| #![trigger back__@.contains(e)] back__@.contains(e) ==> self.edges@.contains_key(e),
-        loops_ok(self.vertices@.dom(), loops@),
+        forall|e: (usize, usize)| #![trigger back__@.contains(e)] back__@.contains(e) ==> self.edges@.contains_key(e) && self.reaches(head, e.0) && self.reaches(head, e.1),
+        /*@loops_in_flow_graph*/ loops_ok(self.edges@.dom(), head, loops@),
 //@ before 0 `if !loops.contains_key(&header)`
     proof {
         lemma_seq_lists_set_ref(it.seq(), back__@);
@@ -944,17 +959,24 @@ where
 //@ before 0 `let nodes = loops.get_mut(&header).unwrap();`
     let ghost lma = loops@;
     proof {
-        assert forall|h: usize| #![trigger lma[h]] lma.contains_key(h) && h != header implies lma[h]@.contains(h) && lma[h]@.subset_of(self.vertices@.dom()) by { }
-        assert(lma.contains_key(header) && lma[header]@.subset_of(self.vertices@.dom()));
+        assert forall|h: usize| #![trigger lma[h]] lma.contains_key(h) && h != header implies lma[h]@.contains(h)
+            && (forall|x: usize| #![trigger lma[h]@.contains(x)] lma[h]@.contains(x) ==> path(self.edges@.dom(), head, x)) by { }
+        assert(lma.contains_key(header));
+        assert forall|x: usize| #![trigger lma[header]@.contains(x)] lma[header]@.contains(x) implies path(self.edges@.dom(), head, x) by { }
     }
 //@ before 0 `while let Some(node) = queue.pop()`
     proof {
+        assert forall|x: usize| nodes@.contains(x) implies #[trigger] self.vertices@.dom().contains(x) by {
+            self.lemma_reach_is_vertex(head, x);
+        }
         vstd::set_lib::lemma_len_subset(nodes@, self.vertices@.dom());
     }
 //@ loop 1
     invariant
-        self.graph_wf(),
+        self.graph_wf(), self.vertices@.contains_key(head),
+        forall|v: usize| #![trigger reachable@.contains(v)] reachable@.contains(v) ==> self.reaches(head, v),
         nodes@.contains(header), nodes@.subset_of(self.vertices@.dom()),
+        /*@nodes_reachable*/ forall|x: usize| #![trigger nodes@.contains(x)] nodes@.contains(x) ==> path(self.edges@.dom(), head, x),
         forall|i: int| 0 <= i < queue@.len() ==> self.vertices@.contains_key(#[trigger] queue@[i]),
         nodes@.len() <= self.vertices@.dom().len(),
     decreases self.vertices@.dom().len() - nodes@.len() + queue@.len(),
@@ -966,13 +988,15 @@ where
     }
 //@ loop 2
     invariant
-        self.graph_wf(), self.vertices@.contains_key(node),
+        self.graph_wf(), self.vertices@.contains_key(head), self.vertices@.contains_key(node),
+        forall|v: usize| #![trigger reachable@.contains(v)] reachable@.contains(v) ==> self.reaches(head, v),
         seq_lists_set_ref(it2.seq(), self.predecessors@[node]@),
         nodes@.contains(header), nodes@.subset_of(self.vertices@.dom()),
+        /*@nodes_reachable*/ forall|x: usize| #![trigger nodes@.contains(x)] nodes@.contains(x) ==> path(self.edges@.dom(), head, x),
         forall|i: int| 0 <= i < queue@.len() ==> self.vertices@.contains_key(#[trigger] queue@[i]),
         nodes@.len() <= self.vertices@.dom().len(),
         self.vertices@.dom().len() - nodes@.len() + queue@.len() == self.vertices@.dom().len() - n0.len() + q0.len(),
-//@ before 0 `if nodes.insert(predecessor)`
+//@ before 0 `if reachable.contains(&predecessor) && nodes.insert(predecessor)`
     let ghost qb = queue@;
     proof {
         lemma_seq_lists_set_ref(it2.seq(), self.predecessors@[node]@);
@@ -990,8 +1014,9 @@ where
 //@ after 0 `queue.push(predecessor); } } }`
     proof {
         // the borrow of the loop's node set has ended
-        assert(loops_ok(self.vertices@.dom(), loops@)) by {
-            assert forall|h: usize| #![trigger loops@[h]] loops@.contains_key(h) implies loops@[h]@.contains(h) && loops@[h]@.subset_of(self.vertices@.dom()) by {
+        assert(loops_ok(self.edges@.dom(), head, loops@)) by {
+            assert forall|h: usize| #![trigger loops@[h]] loops@.contains_key(h) implies loops@[h]@.contains(h)
+                && (forall|x: usize| #![trigger loops@[h]@.contains(x)] loops@[h]@.contains(x) ==> path(self.edges@.dom(), head, x)) by {
                 if h != header { assert(loops@[h] == lma[h]); }
             }
         }
@@ -999,10 +1024,10 @@ where
 //@ loop 3
     invariant
         seq_lists_map(it.seq(), loops@),
-        loops_ok(self.vertices@.dom(), loops@),
+        loops_ok(self.edges@.dom(), head, loops@),
         out__@.len() == it.index@,
         forall|i: int| 0 <= i < it.index@ ==> (#[trigger] out__@[i]).header == *it.seq()[i].0 && out__@[i].nodes@ == it.seq()[i].1@,
-        it.index@ == it.seq().len() ==> loops_shape(self.vertices@.dom(), out__@),
+        it.index@ == it.seq().len() ==> loops_shape(self.edges@.dom(), head, out__@),
 //@ before 0 `out__.push(Loop::new(header, nodes.clone()));`
     proof {
         lemma_seq_lists_map(it.seq(), loops@);
@@ -1010,8 +1035,12 @@ where
     }
 //@ after 0 `out__.push(Loop::new(header, nodes.clone()));`
     proof {
-        assert forall|i: int| 0 <= i < out__@.len() implies (#[trigger] out__@[i]).nodes@.contains(out__@[i].header) && out__@[i].nodes@.subset_of(self.vertices@.dom()) by {
+        assert forall|i: int| 0 <= i < out__@.len() implies (#[trigger] out__@[i]).nodes@.contains(out__@[i].header) by {
             assert(loops@.contains_pair(*it.seq()[i].0, *it.seq()[i].1));
+        }
+        assert forall|i: int, x: usize| #![trigger out__@[i].nodes@.contains(x)] 0 <= i < out__@.len() && out__@[i].nodes@.contains(x) implies path(self.edges@.dom(), head, x) by {
+            assert(loops@.contains_pair(*it.seq()[i].0, *it.seq()[i].1));
+            assert(loops@[*it.seq()[i].0]@.contains(x));
         }
         assert forall|i: int, j: int| 0 <= i < j < out__@.len() implies (#[trigger] out__@[i]).header != (#[trigger] out__@[j]).header by {
             assert(*it.seq()[i].0 != *it.seq()[j].0);
@@ -1033,7 +1062,7 @@ where
             && t.vertices@[e.0].nodes@.contains(e.1),
 //@ loop 0
     invariant
-        loops_shape(self.vertices@.dom(), loops@),
+        loops_shape(self.edges@.dom(), head, loops@),
         it.seq().len() == loops@.len(), forall|i: int| 0 <= i < it.seq().len() ==> *#[trigger] it.seq()[i] == loops@[i],
         tree.graph_wf(), tree.edges@.dom() =~= Set::<(usize, usize)>::empty(),
         forall|k: usize| #![trigger tree.vertices@.contains_key(k)] tree.vertices@.contains_key(k) <==> (exists|j: int| 0 <= j < it.index@ && (#[trigger] loops@[j]).header == k),
@@ -1073,7 +1102,7 @@ where
     }
 //@ loop 1
     invariant
-        loops_shape(self.vertices@.dom(), loops@),
+        loops_shape(self.edges@.dom(), head, loops@),
         it.seq().len() == loops@.len(), forall|i: int| 0 <= i < it.seq().len() ==> *#[trigger] it.seq()[i] == loops@[i],
         tree.graph_wf(),
         forall|k: usize| #![trigger tree.vertices@.contains_key(k)] tree.vertices@.contains_key(k) <==> (exists|j: int| 0 <= j < loops@.len() && (#[trigger] loops@[j]).header == k),
@@ -1082,7 +1111,7 @@ where
             && exists|a: int| 0 <= a < it.index@ && (#[trigger] loops@[a]).header == e.0,
 //@ loop 2
     invariant
-        loops_shape(self.vertices@.dom(), loops@), 0 <= it.index@ < loops@.len(), *l1 == loops@[it.index@],
+        loops_shape(self.edges@.dom(), head, loops@), 0 <= it.index@ < loops@.len(), *l1 == loops@[it.index@],
         it2.seq().len() == loops@.len(), forall|i: int| 0 <= i < it2.seq().len() ==> *#[trigger] it2.seq()[i] == loops@[i],
         tree.graph_wf(),
         forall|k: usize| #![trigger tree.vertices@.contains_key(k)] tree.vertices@.contains_key(k) <==> (exists|j: int| 0 <= j < loops@.len() && (#[trigger] loops@[j]).header == k),
